@@ -1,5 +1,5 @@
 """run-time contracts on real decoder objects (bounded stand-in / replay harness for C05, C06, C09, C11)"""
-import io, contextlib, itertools
+import io, os, contextlib, itertools
 import numpy as np
 from .codes import make
 
@@ -71,9 +71,31 @@ def sector_syndromes(code, rnd, k):
     return out
 
 
+class DecodeDidNotReturn(Exception):
+    pass
+
+
+DECODE_LIMIT_S = int(os.environ.get('VERIF_DECODE_LIMIT_S', '60'))
+
+
 def quiet_decode(dec, syn):
-    with contextlib.redirect_stdout(io.StringIO()):
-        return dec.decode(syn)
+    """dec.decode(syn) with stdout silenced; a call that has not returned after DECODE_LIMIT_S seconds (ordinary calls on the sizes used here take
+    milliseconds to a few seconds) is abandoned and reported as DecodeDidNotReturn - "returns ... without raising" is part of C05, and a check that
+    waits for ever reports nothing.  Uses SIGALRM, i.e. only in the main thread of the (worker) process; elsewhere no limit is applied."""
+    import signal, threading
+    use_alarm = threading.current_thread() is threading.main_thread() and hasattr(signal, 'SIGALRM')
+    if use_alarm:
+        def on_alarm(signum, frame):
+            raise DecodeDidNotReturn('%s.decode did not return within %d s' % (type(dec).__name__, DECODE_LIMIT_S))
+        prev = signal.signal(signal.SIGALRM, on_alarm)
+        signal.alarm(DECODE_LIMIT_S)
+    try:
+        with contextlib.redirect_stdout(io.StringIO()):
+            return dec.decode(syn)
+    finally:
+        if use_alarm:
+            signal.alarm(0)
+            signal.signal(signal.SIGALRM, prev)
 
 
 def syndromes(code, rnd, k, rates=(0.02, 0.08, 0.2)):
